@@ -43,7 +43,7 @@ func init() {
 		{"Policy.baseGroupFor", baseGroupFacts(cp)},
 		{"Policy.pendingIncCount", pendingIncCount("submission/distributor.go")},
 		{"Policy.temporallyCompatible", condKernel("loglist3/logfilter.go", "LogList.TemporallyCompatible",
-			[]string{"cert.NotAfter.Before", "EndExclusive"}, "Policy.temporallyCompatible", "(notAfter start limit : Int)",
+			[]string{"TemporalInterval.EndExclusive", "TemporalInterval.StartInclusive"}, "Policy.temporallyCompatible", "(notAfter start limit : Int)",
 			Spec{Kind: "i64", Repl: map[string]string{"cert.NotAfter": "notAfter",
 				"l.TemporalInterval.EndExclusive": "limit", "l.TemporalInterval.StartInclusive": "start"}})},
 		{"Policy.postBatchInterval", constKernel("submission/races.go", "PostBatchInterval", "Policy.postBatchInterval", durLit)},
